@@ -65,17 +65,24 @@ PROPERTIES = {
         "lemmas": HEAP_LEMMAS + ["inj_card"],
         "files": SUP_FILES,
         "bounded": "bounded.supervised",
-        "level": "other",
-        "explanation": "PROVED (solver-discharged, all sizes): every function the prototype selection runs through "
-                       "(heap, Subgraph construction, _find_prototypes, fit) meets its contract; _find_prototypes returns "
-                       "with at least one prototype whenever >= 2 classes are present, changes nothing but cost/pred/status; "
-                       "fit keeps every prototype at cost 0, predecessor NIL and its own label (invariant I3). "
-                       "NOT YET PROVED: that the predecessor map left by _find_prototypes satisfies Prim's cut certificate and "
-                       "that the prototype set is exactly the set of endpoints of its bichromatic arcs - BOUNDED stand-in: the "
-                       "real fit is run on generated graphs (n <= 6, tie-heavy and distinct weights) and the prototype set is "
-                       "compared with the boundary-endpoint sets of ALL minimum spanning trees (Pruefer enumeration). "
-                       "CITED: cut property (a Prim-certified tree is an MST; unique for distinct weights).",
-        "trusted": COMMON_TRUST + GRAPH_TRUST,
+        "level": "proof",
+        "explanation": "PROVED (solver-discharged, all sizes, all tie patterns, symmetric non-negative finite weights): "
+                       "_find_prototypes meets a contract that states Prim's certificate on the real loop - ghost removal "
+                       "ranks form a bijection; every non-root node hangs on an earlier-removed node and its cost is that "
+                       "arc's weight (mst_tree: a spanning tree rooted at node 0); every tree arc is a lightest arc across the "
+                       "cut {removed earlier} | {the rest} (mst_cut_certificate); a node is a prototype exactly when it is an "
+                       "endpoint of a tree arc joining different labels (prototypes_only_on_class_boundaries with a ghost "
+                       "witness arc per prototype, boundary_endpoints_are_prototypes); every class present has a prototype "
+                       "(every_class_has_prototype); nothing but cost/pred/status changes.  fit (and the semi-supervised fit) "
+                       "call it through that contract and keep every prototype at cost 0, predecessor NIL and its own label "
+                       "(invariant I3, post a_prototypes).  Heap and Subgraph construction are under contract too.  "
+                       "CITED, not mechanised: the cut property (a spanning tree all of whose arcs are lightest across such a "
+                       "cut is a minimum spanning tree, the unique one when weights are distinct).  BOUNDED cross-check "
+                       "(never counted): the real fit on generated graphs (n <= 6, tie-heavy and distinct weights), prototype "
+                       "set compared with the boundary-endpoint sets of ALL minimum spanning trees (Pruefer enumeration).",
+        "trusted": COMMON_TRUST + GRAPH_TRUST + [
+            "cut property of minimum spanning trees (textbook theorem, cited): certificate => MST, unique for distinct weights",
+            "the certificate posts of _find_prototypes are proved of its body and deliberately not exported to callers"],
     },
     "C03": {
         "functions": [SUP + "predict", "opfython.core.subgraph.Subgraph.mark_nodes",
